@@ -303,6 +303,17 @@ def rule_r2(ctx) -> List[R.Inst]:
                 uses = [n for n in walk_no_nested(vm.node) if isinstance(n, ast.Assign) and isinstance(n.targets[0], ast.Subscript) and
                         unparse(n.targets[0].value) == "mask" and unparse(n.targets[0].slice).replace(" ", "") in (f"list({D_}.values())", f"[*{D_}.values()]")]
                 first_form = (lp_, unparse(sd[0].args[0]) == colv and unparse(sd[0].args[1]) == ixv and bool(uses))
+        elif isinstance(it_, ast.Call) and call_name(it_) == "range" and [unparse(a_) for a_ in it_.args] == ["start", "end"] and \
+                isinstance(lp_.target, ast.Name) and len(lp_.body) == 1:
+            # index form: for ix in range(start, end): D.setdefault(cols[ix], ix)
+            ixv = lp_.target.id
+            sd = [x for x in ast.walk(lp_) if isinstance(x, ast.Call) and call_name(x) == "setdefault" and len(x.args) == 2 and
+                  isinstance(x.func.value, ast.Name)]
+            if len(sd) == 1:
+                D_ = sd[0].func.value.id
+                uses = [n for n in walk_no_nested(vm.node) if isinstance(n, ast.Assign) and isinstance(n.targets[0], ast.Subscript) and
+                        unparse(n.targets[0].value) == "mask" and unparse(n.targets[0].slice).replace(" ", "") in (f"list({D_}.values())", f"[*{D_}.values()]")]
+                first_form = (lp_, unparse(sd[0].args[0]) == f"cols[{ixv}]" and unparse(sd[0].args[1]) == ixv and bool(uses))
     if first_form is not None:
         insts.append(R.ok(rid, "no-jack", file, first_form[0].lineno, idiom="first position per distinct column of the window (dict.setdefault in window order)") if first_form[1] else
                      R.viol(rid, "no-jack", file, first_form[0].lineno,
@@ -412,8 +423,26 @@ def rule_r3(ctx) -> List[R.Inst]:
                             f"filters are applied to {flt}; the column filter must see the columns and the type filter the types",
                             construct=repr(flt)))
     cf = [n for n in walk_no_nested(fn.node) if isinstance(n, ast.Call) and isinstance(n.func, ast.Name) and n.func.id == "chord_filter"]
+    def _presliced_sizes(arg) -> bool:
+        """np.array(S[lo:hi]) where S = [g.shape[0] for g in self.groups] (the sizes measured once) and [lo:hi] is the chunk's own slice"""
+        e = arg
+        while isinstance(e, ast.Call) and call_name(e) in ("array", "asarray", "list", "tuple") and len(e.args) >= 1:
+            e = e.args[0]
+        if not (isinstance(e, ast.Subscript) and isinstance(e.slice, ast.Slice) and isinstance(e.value, ast.Name)):
+            return False
+        ds = local_defs(fn.node, e.value.id)
+        if len(ds) != 1 or not isinstance(ds[0], ast.ListComp) or len(ds[0].generators) != 1:
+            return False
+        g = ds[0].generators[0]
+        if g.ifs or unparse(g.iter) != "self.groups" or not isinstance(g.target, ast.Name):
+            return False
+        if unparse(ds[0].elt) not in (f"{g.target.id}.shape[0]", f"len({g.target.id})"):
+            return False
+        return len(chunk) == 1 and isinstance(chunk[0], ast.Subscript) and unparse(chunk[0].slice) == unparse(e.slice)
     if len(cf) == 1 and cf[0].args and "shape[0]" in unparse(cf[0].args[0]) and "chunk" in unparse(cf[0].args[0]):
         insts.append(R.ok(rid, "chord-sizes", file, cf[0].lineno, idiom="chord filter sees the sizes of the chunk's groups, in order"))
+    elif len(cf) == 1 and cf[0].args and _presliced_sizes(cf[0].args[0]):
+        insts.append(R.ok(rid, "chord-sizes", file, cf[0].lineno, idiom="chord filter sees the chunk's slice of the per-group sizes (measured once, in group order)"))
     else:
         insts.append(R.viol(rid, "chord-sizes", file, (cf[0] if cf else fn.node).lineno,
                             "the chord-size filter must receive the sizes of the groups of the chunk, in order",
